@@ -378,6 +378,16 @@ def rt_case(specs, ret):
                 bad.append((R_NATIVE.name, 'func_from_sig(%s) = %s' % (exp, got)))
         except Exception as e:
             bad.append((R_NATIVE.name, 'func_from_sig(%s) raises %r' % (exp, e)))
+        try:
+            # ... and of nothing else: decorating a function it returned must not change what it returns next
+            f1 = support.func_from_sig(exp)
+            f1.__signature__ = inspect.Signature()
+            f1._sigtools__forger = lambda obj: inspect.Signature()
+            f2 = support.func_from_sig(exp)
+            if f2 is f1 or _sig_data(inspect.signature(f2)) != _sig_data(exp):
+                bad.append((R_NATIVE.name, 'func_from_sig(%s) after the function returned by an earlier call was decorated in place: %s' % (exp, inspect.signature(f2))))
+        except Exception as e:
+            bad.append((R_NATIVE.name, 'func_from_sig(%s) twice raises %r' % (exp, e)))
         if not has_po:
             for ua, up, uk in itertools.product((False, True), repeat=3):
                 if not (ua or up or uk):
